@@ -1021,31 +1021,46 @@ func c11StringByFormatting(c *Ctx, br *callBridge) {
 		}
 	}
 	sort.Slice(intKinds, func(i, j int) bool { return intKinds[i].val < intKinds[j].val })
-	usesConvert := false
-	instrs(top, func(b *ssa.BasicBlock, i int, in ssa.Instruction) {
-		if call, ok := in.(*ssa.Call); ok {
-			if cal := calleeOf(call); cal != nil && cal.String() == "(reflect.Value).Convert" {
-				usesConvert = true
+	// the function that applies reflect's generic Convert: the top-level converter or a helper it reaches
+	var convFn *ssa.Function
+	rrc := c.P.Reach([]*ssa.Function{top}, c.inModule, nil)
+	for _, g := range rrc.Order {
+		instrs(g, func(b *ssa.BasicBlock, i int, in ssa.Instruction) {
+			if call, ok := in.(*ssa.Call); ok {
+				if cal := calleeOf(call); cal != nil && cal.String() == "(reflect.Value).Convert" && convFn == nil {
+					convFn = g
+				}
 			}
-		}
-	})
-	if !usesConvert {
+		})
+	}
+	if convFn == nil {
 		c.R.Add(rule, "no-generic-convert", c.P.Pos(top.Pos()), OK, "")
 		return
 	}
+	top = convFn
 	for _, kn := range intKinds {
-		r := c.foldWith(top, 0,
+		base := []Pin{
 			pinCall("Kind", cInt(strKind), func(call *ssa.Call) bool { return call.Call.IsInvoke() }),
 			pinCall("(reflect.Value).Kind", cInt(kn.val), nil),
 			pinCall("(reflect.Value).IsValid", cTrue, nil),
 			pinCall("(reflect.Value).CanConvert", cTrue, nil),
 			pinCall("(reflect.Value).CanInt", boolConst(kn.val <= 6), nil),
 			pinCall("(reflect.Value).CanUint", boolConst(kn.val > 6), nil),
-			pinCall("formula.IsNull", cFalse, nil))
+			pinCall("formula.IsNull", cFalse, nil)}
+		r := c.foldWith(top, 2, append(base, c.pinMembership(pins(base...)))...)
 		bad := ""
 		for _, ret := range r.Returns {
-			if !isNilConst(ret.Results[1]) {
+			if len(ret.Results) < 1 {
 				continue
+			}
+			// success returns: (value, nil) or (value, true)
+			if len(ret.Results) == 2 {
+				if isErrorType(ret.Results[1].Type()) && !isNilConst(ret.Results[1]) {
+					continue
+				}
+				if b, isB := constBoolArg(ret.Results[1]); isB && !b {
+					continue
+				}
 			}
 			for _, rt := range plainOrigins.Roots(ret.Results[0]) {
 				if rt.Kind != "call" || rt.Fn == nil {
